@@ -336,6 +336,15 @@ pub fn c02_case(c: &Case, r: &mut Rng) -> CaseOut {
             if x.corr.len() > 40 {
                 out.tags.push("nondefault-corrections".into());
             }
+            // model tie: the whole analysis under the estimator's parameters, byte for byte
+            if d.len() <= 6000 {
+                if let Run::Done(Ok(v)) = guarded(|| vh::estimate(d)) {
+                    out.requests.push((
+                        format!("analyze {} {}", vec_str(&v), hex(d)),
+                        format!("ok {} {} {} {} {}", x.size, "*", "*", x.corr.len(), fnv64(&x.corr)),
+                    ));
+                }
+            }
             // suffix independence
             let mut d2 = d[..x.size].to_vec();
             if r.chance(1, 2) {
@@ -509,7 +518,16 @@ pub fn c08_case(c: &Case, r: &mut Rng, nperturb: usize, max_limit: u32) -> CaseO
     }
     for (v, is_est) in vectors {
         let replay = format!("params {} {}", vec_str(&v), hex(d));
-        match guarded(|| vh::analyze_with_params(d, &v)) {
+        let analysis = guarded(|| vh::analyze_with_params(d, &v));
+        if d.len() <= 2500 {
+            let resp = match &analysis {
+                Run::Panic(_) => "panic".to_string(),
+                Run::Done(Err(_)) => "err".to_string(),
+                Run::Done(Ok(a)) => format!("ok {} {} {} {} {}", a.compressed_size, a.ops.len(), wire::ops_fnv(&a.ops), a.corrections.len(), fnv64(&a.corrections)),
+            };
+            out.requests.push((format!("analyze {} {}", vec_str(&v), hex(d)), resp));
+        }
+        match analysis {
             Run::Panic(p) => {
                 out.failures.push(Failure {
                     kind: "oracle".into(),
